@@ -188,13 +188,13 @@ func oracle(p *progSpec, o *obsT, res *okT, er *errT) []hk.Failure {
 	dm, dlevel := digestOf(at)
 	for a := 0; a <= la; a++ {
 		sp := p.Attempts[a]
-		if has(o.Log, a, "send", 0) {
+		if ns := count(o.Log, a, "send", 0); ns > 0 {
 			for i := 0; i < nCli; i++ {
 				if sp.Cli[i].Digest {
 					continue
 				}
-				if n := count(o.Log, a, "cli", i); n != 1 {
-					fail("respmw-every-attempt", "a client-level response middleware did not run exactly once after an attempt", fmt.Sprintf("attempt %d middleware %d ran %d times", a, i, n), 1)
+				if n := count(o.Log, a, "cli", i); n != ns {
+					fail("respmw-every-attempt", "a client-level response middleware did not run exactly once after every request that reached the transport", fmt.Sprintf("attempt %d middleware %d ran %d times", a, i, n), ns)
 				}
 			}
 		}
@@ -272,6 +272,19 @@ func oracle(p *progSpec, o *obsT, res *okT, er *errT) []hk.Failure {
 	} else if resent {
 		finalT = toutSpec{Status: 200}
 	}
+	twiceRan := count(o.Log, la, "send", 0) >= 2
+	if twiceRan {
+		finalT = at.T2
+	}
+	fabRan := false
+	if n := len(at.Wraps); n > 0 && at.Wraps[n-1].Kind == "fab" && has(o.Log, la, "win", n-1) {
+		fabRan = true // the outermost wrapper's made-up response is what the caller holds
+		finalT = toutSpec{Status: at.Wraps[n-1].Status, B: bodySpec{CT: "application/json", Body: fabBody}}
+	}
+	fabTag := ""
+	if fabRan {
+		fabTag = ":fabricated-by-wrapper"
+	}
 	um := p.refUnmarshalFails(finalT.B)
 	if !o.Panic && !stale && p.ReqErr == 0 && !(p.Unreplayable && p.Retry && p.Max != 0) {
 		if o.Present && finalT.Fail == 0 && o.Status != finalT.Status {
@@ -288,7 +301,7 @@ func oracle(p *progSpec, o *obsT, res *okT, er *errT) []hk.Failure {
 		// C3
 		wantRes := p.TResult && o.Present && st == 0 && content && readOK && !um[0]
 		if o.Result != wantRes {
-			fail(fmt.Sprintf("result-binding:success:state%d", st), "SuccessResult() populated <=> target supplied, success state, content, unmarshals", o.Result, wantRes)
+			fail(fmt.Sprintf("result-binding:success:state%d%s", st, fabTag), "SuccessResult() populated <=> target supplied, success state, content, unmarshals", o.Result, wantRes)
 		}
 		single := len(o.Log) > 0 && count(o.Log, -1, "send", 0)+count(o.Log, -1, "resend", 0) == 1
 		if o.Result && wantRes && single { // (a target reused across attempts keeps fields of earlier decodes: Go's Unmarshal merges)
@@ -313,7 +326,7 @@ func oracle(p *progSpec, o *obsT, res *okT, er *errT) []hk.Failure {
 			}
 		}
 		if o.ErrorB != wantErrB {
-			fail(fmt.Sprintf("result-binding:error:state%d", st), "ErrorResult() populated <=> target supplied (request target over client type), error state, content, unmarshals", o.ErrorB, wantErrB)
+			fail(fmt.Sprintf("result-binding:error:state%d%s", st, fabTag), "ErrorResult() populated <=> target supplied (request target over client type), error state, content, unmarshals", o.ErrorB, wantErrB)
 		}
 		if o.ErrorB == "req" && wantErrB == "req" && single {
 			ref := &errT{}
@@ -326,6 +339,11 @@ func oracle(p *progSpec, o *obsT, res *okT, er *errT) []hk.Failure {
 	// C5
 	if o.Result && o.ErrorB != "none" {
 		fail("result-binding:both", "both the success and the error result are populated", nil, nil)
+	}
+
+	// download: with an output configured and nothing failing, the output holds the final body
+	if p.Save && !o.Panic && !fabRan && o.Present && finalErr == 0 && count(o.Log, -1, "send", 0)+count(o.Log, -1, "resend", 0) == 1 && o.Output != finalT.B.Body {
+		fail("download-content", "the download target does not hold the response body", o.Output, finalT.B.Body)
 	}
 
 	// C10 (with C6): the error seen is one a stage raised; it is non-nil when a stage that ran raised one
@@ -366,6 +384,9 @@ func oracle(p *progSpec, o *obsT, res *okT, er *errT) []hk.Failure {
 				if w.Ret == "err" {
 					must = append(must, w.RetErr)
 				}
+			case "fab":
+				inner = false
+				catcher = true // (resp, nil) without calling the inner round-tripper
 			case "post":
 				if w.Set != 0 {
 					may = append(may, w.Set)
@@ -424,9 +445,24 @@ func oracle(p *progSpec, o *obsT, res *okT, er *errT) []hk.Failure {
 				}
 			}
 		}
-		if at.Ctx == "transport" && has(o.Log, la, "send", 0) {
+		if twiceRan { // what the first call yielded is discarded by the wrapper
+			respStage(at.T, false)
+			if at.Ctx == "transport" {
+				may = append(may, eCanceled)
+			}
+			respStage(at.T2, true)
+			if at.T2.Fail == 0 && at.T2.B.WriteErr != 0 {
+				may = append(may, at.T2.B.WriteErr)
+			}
+		} else if at.Ctx == "transport" && has(o.Log, la, "send", 0) {
 			must = append(must, eCanceled)
 		} else if has(o.Log, la, "send", 0) {
+			if p.Save && at.T.Fail == 0 && at.T.B.WriteErr != 0 {
+				may = append(may, at.T.B.WriteErr)
+				if !resent && at.T.B.ReadErr == 0 {
+					must = append(must, at.T.B.WriteErr)
+				}
+			}
 			// a client-level digest middleware runs before the built-in binding (e430ccb): when it
 			// re-sends, the 401 itself is never unmarshalled
 			respStage(at.T, !(resent && dlevel == "cli"))
@@ -459,7 +495,7 @@ func oracle(p *progSpec, o *obsT, res *okT, er *errT) []hk.Failure {
 		}
 		if stale { // the response (and its Err) of the previous attempt is what the caller holds
 			pa := p.Attempts[la-1]
-			may = append(may, pa.T.Fail, pa.T.B.ReadErr, pa.T.B.UmErr, eUnmarshal, pa.GetBody)
+			may = append(may, pa.T.Fail, pa.T.B.ReadErr, pa.T.B.UmErr, pa.T.B.WriteErr, pa.T2.Fail, pa.T2.B.WriteErr, eUnmarshal, pa.GetBody)
 			for _, m := range append(append([]mwSpec{}, pa.Cli...), pa.Req...) {
 				may = append(may, m.Set, m.Ret)
 			}
